@@ -181,6 +181,10 @@ func HotSpotParamRuleJsonArrayParser(src []byte) (interface{}, error) {
 	}
 	rules := make([]*hotspot.Rule, len(hotspotRules))
 	for i, hotspotRule := range hotspotRules {
+		if hotspotRule == nil {
+			// a null element of the JSON array: keep it nil, the rule manager ignores nil rules
+			continue
+		}
 		rules[i] = &hotspot.Rule{
 			ID:                hotspotRule.ID,
 			Resource:          hotspotRule.Resource,
